@@ -292,3 +292,37 @@ Proof.
   intros Hh t'. unfold t', MakeDate, MakeTime, HourFromTime, MinFromTime, SecFromTime, msFromTime, Day,
     msPerDay, msPerHour, msPerMinute, msPerSecond. lia.
 Qed.
+
+(* ---- round 6: ToInteger on thousandths, surplus arguments, local setters ---- *)
+Lemma toint_truncates x :
+  Z.abs (1000 * toint x) <= Z.abs x < Z.abs (1000 * toint x) + 1000 /\
+  (0 <= x -> 0 <= toint x) /\ (x <= 0 -> toint x <= 0).
+Proof.
+  unfold toint. destruct (Z.le_gt_cases 0 x) as [H|H].
+  - rewrite Z.quot_div_nonneg by lia. lia.
+  - assert (E : Z.quot x 1000 = - ((- x) / 1000)).
+    { replace x with (- (- x)) at 1 by lia. rewrite Z.quot_opp_l by lia.
+      rewrite Z.quot_div_nonneg by lia. reflexivity. }
+    rewrite E. lia.
+Qed.
+
+(* arguments beyond a setter's parameter list take no part in the result *)
+Lemma surplus_ignored id t a extra :
+  0 <= id <= 7 -> length a = arity id -> set_spec id t (a ++ extra) = set_spec id t a.
+Proof.
+  intros Hid Hlen.
+  assert (C : id = 0 \/ id = 1 \/ id = 2 \/ id = 3 \/ id = 4 \/ id = 5 \/ id = 6 \/ id = 7) by lia.
+  destruct C as [->|[->|[->|[->|[->|[->|[->| ->]]]]]]]; cbv [arity Z.leb Z.compare Z.eqb Pos.eqb Pos.compare Pos.compare_cont] in Hlen;
+    destruct a as [|a0 [|a1 [|a2 [|a3 [|a4 a]]]]]; cbn [length] in Hlen; try discriminate Hlen; reflexivity.
+Qed.
+
+(* with LocalTZA = 0 the local-time setters are the UTC ones *)
+Lemma local_zero_offset id t a :
+  0 <= id <= 6 -> set_spec_z 0 (id + 10) t a = set_spec id t a.
+Proof.
+  intro Hid. unfold set_spec_z, set_spec, set_raw_z.
+  replace ((10 <=? id + 10) && (id + 10 <=? 16)) with true by (symmetry; apply andb_true_iff; split; apply Z.leb_le; lia).
+  replace (id + 10 - 10) with id by lia.
+  replace (option_map (fun t0 => t0 + 0) t) with t by (destruct t; cbn; [rewrite Z.add_0_r|]; reflexivity).
+  destruct (set_raw id t a); cbn [option_map]; [rewrite Z.sub_0_r|]; reflexivity.
+Qed.
